@@ -196,6 +196,13 @@ def run(chk):
         spn = workspace_spline_field(F, cls + "::Workspace")[0]
         ok = sorted(vals) == sorted(["(&(*this.%s).%s)" % (owned, spn), "nullptr"]) or sorted(vals) == sorted(["(&this.%s.%s)" % (owned, spn), "nullptr"])
         chk.ob("C09-R5", "%s::getOptimalSpline exposes the built-in workspace's spline (or nullptr before it exists)" % cls, ok, loc(g), str(vals), construct=cls + "/getOptimalSpline")
+        # the accessor of the built-in workspace, by what it does: the member function that returns a Workspace pointer and
+        # fills the owned workspace member
+        gocs = [g_ for g_ in F.funcs(cls) if (g_.get("ret") or {}).get("c") == "ptr" and ((g_.get("ret") or {}).get("pointee") or {}).get("n") == cls + "::Workspace"
+                and any(p_[:2] == ("this", owned) for p_, h_, n_ in E.function_writes_local(g_))]
+        if len(gocs) != 1:
+            raise Broken("built-in workspace accessor not identified in %s (%d candidates)" % (cls, len(gocs)))
+        goc = gocs[0]
         for f in evs:
             sc = Scope(f)
             ws_alias = None
@@ -205,9 +212,8 @@ def run(chk):
             okw = False
             if ws_alias is not None:
                 c = ws_alias["init"]
-                okw = canon(c["c"], sc) in ("($p5 != nullptr)", "(nullptr != $p5)") and canon(c["a"], sc) == "(*$p5)" and canon(c["b"], sc) == "(*this.getOrCreateInternalWorkspace())"
+                okw = canon(c["c"], sc) in ("($p5 != nullptr)", "(nullptr != $p5)") and canon(c["a"], sc) == "(*$p5)" and canon(c["b"], sc) == "(*this.%s())" % goc["name"]
             chk.ob("C09-R5", "%s evaluate without a workspace uses the built-in one" % cls, okw, loc(f), pp(ws_alias["init"]) if ws_alias else "", construct="%s/evaluate%s/internal-ws" % (cls, f["full"].split("evaluate")[1][:40]))
-        goc = F.func1(cls, "getOrCreateInternalWorkspace")
         rets = [n for n in walk(goc["body"]) if n.get("k") == "return"]
         ok = len(rets) == 1 and canon(rets[0]["e"], Scope(goc)) == "this.%s.get()" % owned
         chk.ob("C09-R5", "%s built-in workspace accessor returns the owned workspace" % cls, ok, loc(goc), "", construct=cls + "/getOrCreate")
